@@ -1156,6 +1156,49 @@ def check_gate(rep, drv, rng, fam, e, style, v):
     rep.count('gate=' + ('not-applicable' if not app else 'inside' if inside else 'outside'))
 
 
+def check_gate_all_mandatory(rep):
+    """the encoders' consistency gate on records that have NO optional or defaulted member: a record-level constraint is not only
+    about presence - inner value constraints of WITH COMPONENTS, a size of the record, ABSENT on a member that is there - and a
+    fully populated value can violate it; refused by every encoder iff outside the denotation"""
+    def mk(cls, spec):
+        return cls(componentType=namedtype.NamedTypes(namedtype.NamedType('age', univ.Integer()), namedtype.NamedType('name', univ.OctetString())),
+                   subtypeSpec=spec)
+    specs = [('age (0..150)', C.WithComponentsConstraint(('age', C.ValueRangeConstraint(0, 150))), lambda a, n: 0 <= a <= 150),
+             ('age (5 | 7)', C.WithComponentsConstraint(('age', C.SingleValueConstraint(5, 7))), lambda a, n: a in (5, 7)),
+             ('age (ALL EXCEPT 99)', C.WithComponentsConstraint(('age', C.ConstraintsExclusion(C.SingleValueConstraint(99)))), lambda a, n: a != 99),
+             ('name SIZE (1..2)', C.WithComponentsConstraint(('name', C.ValueSizeConstraint(1, 2))), lambda a, n: 1 <= len(n) <= 2),
+             ('SIZE (1..1) of the record', C.ValueSizeConstraint(1, 1), lambda a, n: False),
+             ('SIZE (2..3) of the record', C.ValueSizeConstraint(2, 3), lambda a, n: True),
+             ('name ABSENT', C.WithComponentsConstraint(('name', C.ComponentAbsentConstraint())), lambda a, n: False),
+             ('age PRESENT', C.WithComponentsConstraint(('age', C.ComponentPresentConstraint())), lambda a, n: True)]
+    for cname, cls in (('Sequence', univ.Sequence), ('Set', univ.Set)):
+        for sname, spec, admits_ in specs:
+            for a, n in ((0, b'x'), (150, b'xy'), (151, b'x'), (-1, b''), (5, b'xyz'), (99, b'x'), (7, b'ab')):
+                try:
+                    obj = mk(cls, spec).clone()
+                    obj['age'] = a
+                    obj['name'] = n
+                except error.PyAsn1Error:
+                    continue
+                for ename, enc in ENCODERS:
+                    rep.evaluations += 1
+                    rep.count('gate-all-mandatory')
+                    case = {'kind': 'gate-all-mandatory', 'container': cname, 'constraint': sname, 'age': a, 'name': n.hex(), 'encoder': ename}
+                    try:
+                        data = enc(obj)
+                        got = True
+                    except error.PyAsn1Error:
+                        got = False
+                    except Exception as ex:  # noqa
+                        rep.fail('encode-leak-%s:all-mandatory' % type(ex).__name__, repr(ex), case)
+                        continue
+                    if got and not admits_(a, n):
+                        rep.fail('encoder-accepts-violation:rec-all-mandatory:%s' % ename, '%s {age %d, name %r} (%s) encoded to %s' % (
+                            cname, a, n, sname, data.hex()), case)
+                    if not got and admits_(a, n):
+                        rep.fail('encoder-refuses-member:rec-all-mandatory:%s' % ename, '%s {age %d, name %r} (%s) refused' % (cname, a, n, sname), case)
+
+
 def op_gate(rep, drv, rng, n):
     g = Gen(rng)
     for _ in range(n):
@@ -1703,6 +1746,8 @@ def run(rep, tier, seed):
     known_finding_probes(rep)
     check_huge(rep)
     check_fresh_container_assignment(rep)
+    rep.case('gate on all-mandatory records', nontrivial=True)
+    check_gate_all_mandatory(rep)
     rep.case('occupied slot reassignment', nontrivial=True)
     check_occupied_slot_reassignment(rep)
     check_class_blind_assignment(rep)
